@@ -86,6 +86,34 @@ def decode {G : Type} : Wire G → Option (VMsg G)
   | .ok m => some m
   | _ => none
 
+
+/-! ### Shape facts re-read from the source by the translator (gen/cmd/c15facts) -/
+
+/-- The guards and effects of `round1.Update` the translator recognises (anything else is `unknown`). -/
+inductive UStep
+  | typeCheck | checkBlockExisted | pkGuard | bindHash | verifySign | randNil | randVerify
+  | gAdd | gAddGuard | rAdd | finish | returnNil | unknown
+  deriving DecidableEq, Repr
+
+/-- `round2.checkSignature`. -/
+inductive CStep
+  | verifyBlockSig | verifyRandomSig | returnNil | unknown
+  deriving DecidableEq, Repr
+
+/-- `SignInfo.VerifySign`. -/
+inductive VStep
+  | signerNonZero | verifyOverDataHash | unknown
+  deriving DecidableEq, Repr
+
+/-- The statement order `update` (below) transcribes, for either value of the `bindsHash` fact. -/
+def expectedUpdateSteps (bindsHash : Bool) : List UStep :=
+  [.typeCheck, .checkBlockExisted, .pkGuard] ++ (if bindsHash then [.bindHash] else []) ++
+  [.verifySign, .randNil, .randVerify, .gAdd, .gAddGuard, .rAdd, .finish, .returnNil]
+
+def expectedCheckSignatureSteps : List CStep := [.verifyBlockSig, .verifyRandomSig, .returnNil]
+
+def expectedVerifySignSteps : List VStep := [.signerNonZero, .verifyOverDataHash]
+
 /-! ### groupSignGenerator -/
 
 structure Gen (G : Type) where
@@ -359,6 +387,15 @@ def Proc.init {G : Type} (c : Crypto G) (env : Env) (future : List (VMsg G)) : P
 def Proc.run {G : Type} (c : Crypto G) (env : Env) (pr : Proc G) : List (Wire G) → Proc G
   | [] => pr
   | w :: ws => Proc.run c env (pr.deliver c env w).1 ws
+
+/-- The environment with the chain stub's answer replaced (the block may reach the
+chain through another path while the round is collecting). -/
+def Env.withChain (env : Env) (b : Bool) : Env := { env with blockExists := b }
+
+/-- A history: each packet arrives while `HasBlockByHash(bh.Hash)` answers `b`. -/
+def Proc.runX {G : Type} (c : Crypto G) (env : Env) (pr : Proc G) : List (Bool × Wire G) → Proc G
+  | [] => pr
+  | (b, w) :: ws => Proc.runX c env (pr.deliver c (env.withChain b) w).1 ws
 
 /-! ### The symbolic group used by the driver (and as the witness that the
 crypto hypotheses of the theorems are satisfiable) -/
